@@ -664,4 +664,15 @@ func c18(c *core.Ctx) {
 		}
 		c.Violation(v.Sig, v.Msg, map[string]any{"history": v.Hist, "history_text": hs})
 	}
+	// concurrent sessions on the shared tree, under the controlled scheduler
+	var plans []Plan
+	for _, sc := range c18Scenarios() {
+		if c.Quick() {
+			plans = append(plans, Plan{Sc: sc, Max: 3}, Plan{Sc: sc, Delay: true, Max: 4})
+		} else {
+			plans = append(plans, Plan{Sc: sc, Max: 12}, Plan{Sc: sc, Delay: true, Max: 12})
+		}
+	}
+	runPlans(c, plans)
+	c.Set("concurrent", "2-3 sessions x 1-2 operations on one shared ramfs tree (create|walk, create|create-same-name, create|list, write|read, write|write|read, remove|walk-up, remove|create-inside, clunk|walk, remove|remove-same, create|remove|walk); every interleaving at every lock operation up to the bound; oracle: no panic, all return, brute-force linearizability against the reference tree incl. the final tree read back, nref==links after clunking everything")
 }
